@@ -34,6 +34,12 @@ func TestGen(t *testing.T) {
 		} else {
 			genNodeDown(t, out, budget)
 		}
+	case "C22":
+		if replay != "" {
+			replayRef(t, out, replay)
+		} else {
+			genRef(t, out, budget)
+		}
 	default:
 		t.Fatalf("unknown VERIF_PROPERTY %q", os.Getenv("VERIF_PROPERTY"))
 	}
